@@ -3,11 +3,16 @@
 //! at Debug level installed (some code only runs when logging is enabled).
 //! `hostile BYTES` → `parse=<c> meta=<c> acc=<c> fmt=<c> digests=<c> sig=<c> keyids=<c> files=<c>` (fmt = the `Display` /
 //! `Debug` impls of Header, IndexEntry, IndexData, Lead, PackageMetadata on the parsed values) with
-//! c ∈ ok | err | panic | skip; or `abort` (child died) / `alloc-excess`; plus `iter=<k>:<classes>:<fnv>|runaway|err|panic|skip`:
+//! c ∈ ok | err | panic | skip (`sigreal=` = `verify_signature` with a REAL `pgp::Verifier` — the Ed25519 test key, loaded
+//! before the fork — where `sig=` uses a verifier that rejects everything); or `abort` (child died) / `alloc-excess`; plus `iter=<k>:<classes>:<fnv>|runaway|err|panic|skip`:
 //! a consumer that keeps pulling items after an error (collect / filter_map) must see the iterator END (runaway = more
 //! than the header's file count + 16 items were produced); otherwise the number of items it saw, their Ok / Err classes
 //! run-length encoded and a hash of their paths and contents (`c07::drain_all`), which the model predicts
 //! (Model/FileIter.lean); `err` = `files()` itself failed.
+//! `hostsrc04 BYTES` → `parse=<c> cur=<c> open=<c> opens=<c> bufr=<c> mopen=<c>`: the same bytes, in the same kind of child,
+//! through every SOURCE kind / entry point: `Package::parse` on a slice, on an `io::Cursor`, `Package::open(&Path)` and
+//! `Package::open(&str)` on a file holding the bytes (std's default `BufReader<File>`), `Package::parse` over
+//! `BufReader::with_capacity(16, File)`, `PackageMetadata::open`. The file is written by the parent before the fork.
 use crate::common::*;
 use crate::pkggen::*;
 use std::io::Read;
@@ -76,6 +81,13 @@ fn mark(stage: &'static str) {
     }
 }
 
+thread_local! {
+    /// the real verifier of the `sigreal` stage (public Ed25519 test key of /repo), loaded once, before any fork
+    static REAL_VERIFIER: Option<rpm::signature::pgp::Verifier> =
+        std::fs::read(format!("{}/public_ed25519.asc", KEYDIR)).ok().and_then(|k| rpm::signature::pgp::Verifier::load_from_asc_bytes(&k).ok());
+}
+const KEYDIR: &str = "/repo/tests/assets/signing_keys";
+
 fn stages(bytes: &[u8]) -> String {
     let meta = guarded(std::panic::AssertUnwindSafe(|| rpm::PackageMetadata::parse(&mut &bytes[..]).map(|_| ())));
     mark("meta");
@@ -107,6 +119,12 @@ fn stages(bytes: &[u8]) -> String {
             mark("digests");
             let sig = guarded(std::panic::AssertUnwindSafe(|| p.verify_signature(RejectAll)));
             mark("sig");
+            // the real OpenPGP verifier on the (attacker-controlled) signature blobs and header bytes
+            let sigreal = REAL_VERIFIER.with(|v| match v {
+                Some(v) => cls(guarded(std::panic::AssertUnwindSafe(|| p.verify_signature(v)))),
+                None => "nokey",
+            });
+            mark("sigreal");
             let key = guarded(std::panic::AssertUnwindSafe(|| p.signature_key_ids()));
             mark("keyids");
             let uncompressed = matches!(p.metadata.get_payload_compressor(), Ok(rpm::CompressionType::None));
@@ -126,15 +144,40 @@ fn stages(bytes: &[u8]) -> String {
                 }
             } else { "skip".to_string() };
             mark("iter");
-            out.push_str(&format!(" acc={} fmt={} digests={} sig={} keyids={} files={} iter={}", cls(acc), cls(fmt), cls(dig), cls(sig), cls(key), files, iter));
+            out.push_str(&format!(" acc={} fmt={} digests={} sig={} sigreal={} keyids={} files={} iter={}", cls(acc), cls(fmt), cls(dig), cls(sig), sigreal, cls(key), files, iter));
         }
-        _ => out.push_str(" acc=skip fmt=skip digests=skip sig=skip keyids=skip files=skip iter=skip"),
+        _ => out.push_str(" acc=skip fmt=skip digests=skip sig=skip sigreal=skip keyids=skip files=skip iter=skip"),
     }
     out
 }
 
+/// every source kind / entry point of the read side on the same bytes (`path` holds them, written by the parent)
+fn sources(bytes: &[u8], path: &std::path::Path) -> String {
+    use std::panic::AssertUnwindSafe as A;
+    let parse = guarded(A(|| rpm::Package::parse(&mut &bytes[..]).map(|_| ())));
+    mark("parse");
+    let cur = guarded(A(|| rpm::Package::parse(&mut std::io::Cursor::new(bytes)).map(|_| ())));
+    mark("cur");
+    let open = guarded(A(|| rpm::Package::open(path).map(|_| ())));
+    mark("open");
+    let opens = guarded(A(|| rpm::Package::open(path.to_str().unwrap_or("")).map(|_| ())));
+    mark("opens");
+    let bufr = guarded(A(|| -> Result<(), rpm::Error> {
+        let f = std::fs::File::open(path)?;
+        rpm::Package::parse(&mut std::io::BufReader::with_capacity(16, f)).map(|_| ())
+    }));
+    mark("bufr");
+    let mopen = guarded(A(|| rpm::PackageMetadata::open(path).map(|_| ())));
+    mark("mopen");
+    format!("parse={} cur={} open={} opens={} bufr={} mopen={}", cls(parse), cls(cur), cls(open), cls(opens), cls(bufr), cls(mopen))
+}
+
 /// run in a forked child; the parent only learns a line of text or that the child died
 fn in_child(bytes: &[u8]) -> String {
+    in_child_with(bytes, &|b| stages(b))
+}
+
+fn in_child_with(bytes: &[u8], work: &dyn Fn(&[u8]) -> String) -> String {
     unsafe {
         let mut fds = [0i32; 2];
         if libc::pipe(fds.as_mut_ptr()) != 0 {
@@ -147,7 +190,7 @@ fn in_child(bytes: &[u8]) -> String {
             libc::setrlimit(libc::RLIMIT_AS, &lim);
             ALLOC_EXCESS.store(false, Ordering::Relaxed);
             ALLOC_LIMIT.store((4 << 20) + 16 * bytes.len(), Ordering::Relaxed);
-            let mut s = stages(bytes);
+            let mut s = work(bytes);
             ALLOC_LIMIT.store(usize::MAX, Ordering::Relaxed);
             if ALLOC_EXCESS.load(Ordering::Relaxed) {
                 s = format!("alloc-excess:{} {}", EXCESS_AT.lock().unwrap().unwrap_or("?"), s);
@@ -186,7 +229,21 @@ pub fn eval(op: &str, a: &[&str]) -> Option<String> {
         "hostile" => {
             let _ = log::set_logger(&LOGGER);
             log::set_max_level(log::LevelFilter::Debug);
+            REAL_VERIFIER.with(|_| ()); // loaded in the parent
             Some(in_child(&arg_bytes(a[0])))
+        }
+        "hostsrc04" => {
+            let _ = log::set_logger(&LOGGER);
+            log::set_max_level(log::LevelFilter::Debug);
+            let bytes = arg_bytes(a[0]);
+            static N: AtomicUsize = AtomicUsize::new(0);
+            let path = std::env::temp_dir().join(format!("rpmverif-c04s-{}-{}.rpm", std::process::id(), N.fetch_add(1, Ordering::Relaxed)));
+            if std::fs::write(&path, &bytes).is_err() {
+                return Some("io-setup".into());
+            }
+            let r = in_child_with(&bytes, &|b| sources(b, &path));
+            let _ = std::fs::remove_file(&path);
+            Some(r)
         }
         _ => None,
     }
@@ -209,6 +266,27 @@ pub fn small_built(seed: u64, with_files: bool) -> Vec<u8> {
     pkg.write(&mut v).unwrap();
     let _ = std::fs::remove_dir_all(&dir);
     v
+}
+
+/// the same kind of package (two files, uncompressed payload) built AND SIGNED by the library (`build_and_sign`, Ed25519
+/// test key, signature time clamped to the source date: deterministic): digests, OPENPGP and the legacy signature tag in
+/// the signature header
+pub fn small_signed(seed: u64) -> Option<Vec<u8>> {
+    let sec = std::fs::read(format!("{}/secret_ed25519.asc", KEYDIR)).ok()?;
+    let signer = rpm::signature::pgp::Signer::load_from_asc_bytes(&sec).ok()?;
+    let dir = std::path::PathBuf::from(format!("work/c04src-s{}", std::process::id()));
+    let _ = std::fs::create_dir_all(&dir);
+    let mut b = rpm::PackageBuilder::new("hostile", "1.0", "MIT", "noarch", "s").compression(rpm::CompressionType::None).source_date(1_600_000_000u32);
+    for i in 0..2 {
+        let p = dir.join(format!("f{}", i));
+        std::fs::write(&p, vec![b'a' + i as u8; 5 + (seed as usize + i) % 7]).ok()?;
+        b = b.with_file(&p, rpm::FileOptions::new(format!("/opt/h/f{}", i)).mode(rpm::FileMode::regular(0o644))).ok()?;
+    }
+    let pkg = b.build_and_sign(signer).ok()?;
+    let mut v = Vec::new();
+    pkg.write(&mut v).ok()?;
+    let _ = std::fs::remove_dir_all(&dir);
+    Some(v)
 }
 
 /// a hand-encoded package in the large-file layout: sizes in RPMTAG_LONGFILESIZES (64 bit, unchecked), an
@@ -316,6 +394,24 @@ pub fn gen(ctx: &mut Ctx) {
             }
         }
     }
+    if si == 0 {
+        // well-formed v4 signature packets WITHOUT any sub-packet (no Issuer, no creation time) of every algorithm family, under
+        // every signature tag, alone (no digests recorded: the verifiers are reached) — the `key_ids.is_empty()` arm of the real
+        // `pgp::Verifier::verify` and the no-issuer arm of `signature_key_ids`
+        let lead = gen_lead(&mut Rng::new(13), false);
+        for alg in [1u8, 3, 17, 19, 22, 27, 0, 200] {
+            let pkt = crate::c10::crafted_sig_packet(alg);
+            for tag in [268u32, 267, 1002, 278] {
+                let mut s = GHeader::new();
+                if tag == 278 {
+                    s.push(tag, 8, &TData::Strs(vec![crate::c02::b64_text(&pkt)]));
+                } else {
+                    s.push(tag, 7, &TData::Bytes(pkt.clone()));
+                }
+                ctx.req(&format!("hostile {}", hx(&assemble(&lead, &s, 0, &GHeader::new(), &[]))));
+            }
+        }
+    }
     if si == 1 % sn {
         // gap G3: blobs that are a SEQUENCE of packets around real signatures (junk / garbage-in-a-frame / second signature /
         // trailing packets or unframed bytes / re-framed with every length format): the framing itself, and the whole read
@@ -337,6 +433,9 @@ pub fn gen(ctx: &mut Ctx) {
     }
     let base_a = small_built(1, true);
     let base_b = small_built(2, false);
+    // a package built and signed by the library: base of truncations / mutations as well (its signature header carries
+    // real OpenPGP material, which the `sigreal` stage hands to the real verifier)
+    let base_s = small_signed(3).unwrap_or_else(|| base_a.clone());
     if si == 0 {
         // boundary-value products of intro fields and one index entry, in either header
         let lead = gen_lead(&mut Rng::new(7), false);
@@ -393,6 +492,19 @@ pub fn gen(ctx: &mut Ctx) {
                 ctx.req(&format!("hostile {}", hx(&base[..k])));
             }
         }
+    }
+    // every truncation of the signed package (whole read side), and every truncation of all three once more through the
+    // other source kinds (Cursor, File + default BufReader, File + 16-byte BufReader, metadata-only open)
+    for (bi, base) in [&base_s, &base_a, &base_b].iter().enumerate() {
+        for k in 0..=base.len() {
+            if (k as u64 + bi as u64) % sn != si { continue; }
+            if bi == 0 {
+                ctx.req(&format!("hostile {}", hx(&base[..k])));
+            }
+            ctx.req(&format!("hostsrc04 {}", hx(&base[..k])));
+        }
+    }
+    if si == 0 {
         // hostile cpio headers: rewrite fields of the first archive entry of the built package
         if let Ok(p) = rpm::Package::parse(&mut &base_a[..]) {
             let off = p.metadata.get_package_segment_offsets().payload as usize;
@@ -422,7 +534,7 @@ pub fn gen(ctx: &mut Ctx) {
         }
     }
     // single-byte mutations (3 values per position) of the two small packages
-    for (bi, base) in [&base_a, &base_b].iter().enumerate() {
+    for (bi, base) in [&base_a, &base_b, &base_s].iter().enumerate() {
         for pos in 0..base.len() {
             if (pos as u64 + bi as u64) % sn != si { continue; }
             if !ctx.thorough && pos % 3 != 0 { continue; }
@@ -431,6 +543,10 @@ pub fn gen(ctx: &mut Ctx) {
                 let mut b = (*base).clone();
                 b[pos] = v;
                 ctx.req(&format!("hostile {}", hx(&b)));
+                // mutated (complete) inputs through the other source kinds: every 4th position of the signed package
+                if bi == 2 && pos % 4 == 0 && v == base[pos] ^ 0x80 {
+                    ctx.req(&format!("hostsrc04 {}", hx(&b)));
+                }
             }
         }
     }
